@@ -2,6 +2,7 @@ package c03
 
 import (
 	"math/rand"
+	"os"
 	"net/netip"
 	"testing"
 	"time"
@@ -48,6 +49,7 @@ type rec struct {
 	Err  int    `json:"err"`  // reported offset - true offset of handling T1h (ns, clamped)
 	Rtd  int    `json:"rtd"`  // reported round-trip delay (ns, clamped)
 	Beh  int    `json:"beh"`
+	Tr   string `json:"tr"` // transport of the behaviour ("ip" | "scion"), on reset records
 }
 
 const clampNs = 2_000_000_000
@@ -87,11 +89,15 @@ func TestC03(t *testing.T) {
 	rng := vio.Rand()
 	naccept, nbeh := 0, 0
 	for bi, sc := range scheds {
-		n, err := NewNet()
+		kind := "ip"
+		if os.Getenv("VERIF_TRANSPORT") == "scion" || (os.Getenv("VERIF_TRANSPORT") == "" && bi%2 == 1) {
+			kind = "scion"
+		}
+		n, err := NewNetFor(kind)
 		if err != nil {
 			t.Fatal(err)
 		}
-		out.Emit(rec{Ev: "reset", Beh: bi})
+		out.Emit(rec{Ev: "reset", Beh: bi, Tr: kind})
 		naccept += runSchedule(t, n, sc, bi, rng, out)
 		out.Emit(rec{Ev: "end", Beh: bi})
 		// let a running call finish before closing the sockets
@@ -148,7 +154,11 @@ func runSchedule(t *testing.T, n *Net, sc []move, bi int, rng *rand.Rand, out *v
 		case a := <-n.Arrivals:
 			nex++
 			at := &attempt{ex: nex, arr: a}
-			if err := ntp.DecodePacket(&at.req, a.B); err != nil {
+			pl, _, err := n.T.Unwrap(a.B)
+			if err != nil {
+				t.Fatalf("client sent an unparsable datagram: %v", err)
+			}
+			if err := ntp.DecodePacket(&at.req, pl); err != nil {
 				t.Fatalf("client sent an undecodable request: %v", err)
 			}
 			atts[nex] = at
@@ -175,11 +185,11 @@ func runSchedule(t *testing.T, n *Net, sc []move, bi int, rng *rand.Rand, out *v
 			if n.Calling() || len(n.Arrivals) > 0 {
 				continue
 			}
-			p := n.Client.VerifPrev()
+			p := n.T.Prev()
 			if p.Reference != "" {
 				tt := ntp.TimeFromTime64(p.CTxTime, time.Now())
 				p.CTxTime = ntp.Time64FromTime(tt.Add(-4 * time.Second))
-				n.Client.VerifSetPrev(p)
+				n.T.SetPrev(p)
 			}
 		case "theta":
 			n.SetTheta(time.Duration(mv.T) * 25 * time.Millisecond)
@@ -289,7 +299,9 @@ func awaitReaction(n *Net) (string, reaction) {
 				r.eval = lr
 				return "ok", r
 			case "received packet with unexpected type or structure", "received packet from unexpected source",
-				"failed to decode packet payload", "failed to decode NTS packet", "failed to process NTS packet":
+				"failed to decode packet payload", "failed to decode NTS packet", "failed to process NTS packet",
+				"received packet to unexpected destination", "failed to handle packet", "failed to decode packet",
+				"failed to authenticate packet":
 				return "skip", r
 			case "failed to measure clock offset":
 				return "error", r
@@ -315,7 +327,7 @@ func findH(n *Net, pred func(h *Handling) bool) *Handling {
 func fillAccept(rc *rec, n *Net, cur *attempt, atts map[int]*attempt, r reaction, delAt time.Time) {
 	// let the client finish the assignment of its interleaved-mode state
 	time.Sleep(300 * time.Microsecond)
-	pv := n.Client.VerifPrev()
+	pv := n.T.Prev()
 	cur.acc, cur.accCTx, cur.accCRx, cur.delAt = true, pv.CTxTime, pv.CRxTime, delAt
 	off := r.eval.Attrs["clock offset"].Duration()
 	rtd := r.eval.Attrs["round trip delay"].Duration()
